@@ -53,6 +53,16 @@ Theorem c02_write_sent_at_most_once : forall atts,
 Proof. exact Oxia.Client.WriteProofs.write_sent_at_most_once. Qed.
 Print Assumptions c02_write_sent_at_most_once.
 
+(* ... and the caller is told exactly once: every non-empty sequence of attempt outcomes ends in ONE reported outcome,
+   preceded by nothing or by the single successful send (so no outcome is reported before the send it belongs to,
+   none after another outcome, and the loop never ends silently) *)
+Theorem c02_write_outcome_reported_once : forall atts, atts <> nil ->
+  exists pre r,
+    Oxia.Client.WriteModel.write_path true atts = pre ++ (Oxia.Client.WriteModel.WDone r :: nil) /\
+    (pre = nil \/ pre = Oxia.Client.WriteModel.WSent :: nil).
+Proof. exact Oxia.Client.WriteProofs.write_done_once. Qed.
+Print Assumptions c02_write_outcome_reported_once.
+
 (* the shape of change this excludes: in-flight failures reported with the stream's (retriable) status *)
 Theorem c02_write_resent_without_eof_flattening_refuted :
   exists atts, Oxia.Client.WriteModel.count_sent (Oxia.Client.WriteModel.write_path false atts) = 2.
